@@ -263,7 +263,7 @@ func c07handlers(c *Ctx, l *lab.Lab) {
 				continue
 			}
 			pkg := fmt.Sprintf("c07.h%s%s", g.Label, where)
-			f, cases := corpus.PlacementFile(pkg, "c07h"+g.Label+where, g.QueryKinds, g.Cards, g.WithPath)
+			f, cases := corpus.PlacementFileG(pkg, "c07h"+g.Label+where, g)
 			// keep only the wanted placement
 			var keepM []*spec.Method
 			var keepC []*corpus.PlaceCase
